@@ -164,7 +164,7 @@ func cmdCheck(args []string) int {
 			units = append(units, &unit{kind: "lemma", lm: p.Specs.Lemmas[n]})
 		}
 	}
-	timeout := 30 // quick tier: obligations normally discharge in well under 10 s; the margin absorbs a loaded machine
+	timeout := 45 // quick tier: obligations normally discharge in well under 10 s; the margin absorbs a loaded machine (undecided ones are retried alone)
 	if tier == "thorough" {
 		timeout = 120
 	}
@@ -400,7 +400,7 @@ func cmdCheck(args []string) int {
 		// engine/autoreplay.go) - for the others a violation line ends with no-failing-input-found
 		var auto []string
 		for _, k := range keys {
-			if fc := p.Specs.Contracts[k]; fc != nil && !fc.Trusted && !fc.Inline && autoReplayable(p.Funcs[k]) {
+			if fc := p.Specs.Contracts[k]; fc != nil && !fc.Trusted && !fc.Inline && hasProp(fc.Props, id) && autoReplayable(p.Funcs[k]) {
 				auto = append(auto, k)
 			}
 		}
